@@ -17,8 +17,7 @@
        again independent of the history length. *)
 From Coq Require Import Reals ZArith List Lra Lia.
 From Flocq Require Import Core Relative.
-From Romea Require Import Num NumR OnlineStatsModel OnlineStatsProofs GridMapFloat StatsSem SrcTieC16.
-From Romea.gen Require Import SrcStats.
+From Romea Require Import Num NumR OnlineStatsModel OnlineStatsProofs GridMapFloat StatsSem.
 Import ListNotations.
 Local Open Scope R_scope.
 
@@ -243,48 +242,8 @@ Qed.
 Definition values_bounded (mult : Z) (ops : list (oop R)) : Prop :=
   Forall (fun o => match o with OUpdate v => Rabs (v * IZR mult) <= 100000000 | OReset => True end) ops.
 
-Lemma values_ops_bounded mult ops : (Z.abs mult < 2 ^ 53)%Z -> values_bounded mult ops -> ops_bounded B64Ops mult ops.
-Proof.
-  intros Hm. unfold values_bounded, ops_bounded. apply Forall_impl. intros [v|] H; [|exact I].
-  apply trunc_b64_bound; assumption.
-Qed.
 
-Lemma since_reset_bounded (mult : Z) ops : ops_bounded B64Ops mult ops -> forall acc,
-  Forall (fun x => (Z.abs x <= 100000000)%Z) acc ->
-  Forall (fun x => (Z.abs x <= 100000000)%Z) (since_reset (map (trunc_op B64Ops mult) ops) acc).
-Proof.
-  induction 1 as [|o ops Ho Hops IH]; intros acc Hacc; [exact Hacc|].
-  destruct o as [v|]; cbn [map trunc_op since_reset].
-  - apply IH. apply Forall_app. split; [exact Hacc|]. constructor; [exact Ho|constructor].
-  - apply IH. constructor.
-Qed.
 
-Lemma average_b64_code p W (ops : list (oop R)) : (0 < W)%nat -> (W <= 64)%nat -> 2 / 2000001 <= p <= 1 ->
-  let mult := o_multiplier B64Ops p in
-  values_bounded mult ops ->
-  let c := fold_left (src_avg_step B64Ops) ops (src_avg_ctor2 B64Ops p (Z.of_nat W)) in
-  let L := lastn W (since_reset (map (trunc_op B64Ops mult) ops) []) in
-  (1 <= mult <= 1000000)%Z /\
-  (L = [] -> src_avg_getAverage c = None) /\
-  (L <> [] -> src_avg_getAverage c = Some (rnd64 (zmean mult L)) /\
-              Rabs (rnd64 (zmean mult L) - zmean mult L) <= u64 * Rabs (zmean mult L)).
-Proof.
-  intros HW0 HW Hp mult Hv c L.
-  pose proof (multiplier_b64 p Hp) as Hm. fold mult in Hm. split; [exact Hm|].
-  assert (Hm53 : (Z.abs mult < 2 ^ 53)%Z).
-  { assert (1000000 < 2 ^ 53)%Z by (simpl; lia). lia. }
-  pose proof (values_ops_bounded mult ops Hm53 Hv) as Hops.
-  destruct (avg_code_model B64Ops B64_one B64_comm p W ops HW0 HW Hops) as [Hrel Hmc]. fold mult c in Hrel, Hmc.
-  pose proof (tie_avg_getAverage B64Ops c _ Hrel) as G. rewrite Hmc in G. rewrite G.
-  set (h := map (trunc_op B64Ops mult) ops) in *.
-  destruct (window_is_last_W W h HW0) as (_ & V2 & _). fold L in V2.
-  split.
-  - intros E. unfold o_average.
-    destruct (o_data (fold_left i_step h (o_init W))) as [|a l]; [reflexivity|].
-    pose proof (lastn_length W (since_reset h [])) as Len. fold L in Len. rewrite E in Len. cbn [length] in *. lia.
-  - intros HL. apply (average_b64_history W h mult HW0 HW ltac:(lia)); [|exact HL].
-    apply since_reset_bounded; [exact Hops|constructor].
-Qed.
 
 (* ------------------------------------------------------------------ (c) the variance: forward error analysis *)
 (* relative perturbation *)
@@ -557,25 +516,3 @@ Proof.
   rewrite (zvar_unf m L ltac:(lia)), HLW. exact Bv.
 Qed.
 
-(* the same about the OnlineVariance code as written, hypotheses on the inputs only *)
-Lemma variance_b64_code p W (ops : list (oop R)) : (2 <= W)%nat -> (W <= 64)%nat -> 2 / 2000001 <= p <= 1 ->
-  let mult := o_multiplier B64Ops p in
-  values_bounded mult ops ->
-  let c := fold_left (src_var_step B64Ops) ops (src_var_ctor2 B64Ops p (Z.of_nat W)) in
-  let xs := since_reset (map (trunc_op B64Ops mult) ops) [] in
-  let L := lastn W xs in
-  (W <= length xs)%nat ->
-  exists v, src_var_getVariance c = Some v /\
-    Rabs (v - zvar mult L) <= u64 * (7 * zsqsum mult L + 9 * (INR W * zmean mult L * zmean mult L)) / (INR W - 1) + 3 * eta64.
-Proof.
-  intros HW2 HW Hp mult Hv c xs L Hfull. assert (HW0 : (0 < W)%nat) by lia.
-  pose proof (multiplier_b64 p Hp) as Hm. fold mult in Hm.
-  assert (Hm53 : (Z.abs mult < 2 ^ 53)%Z).
-  { assert (1000000 < 2 ^ 53)%Z by (simpl; lia). lia. }
-  assert (Hm32 : in_s32 mult) by (unfold in_s32; lia).
-  pose proof (values_ops_bounded mult ops Hm53 Hv) as Hops.
-  destruct (var_code_window B64Ops B64_one B64_comm p W ops HW0 HW Hm32 Hops) as (_ & _ & _ & _ & _ & _ & Gv & _).
-  fold mult c in Gv. rewrite Gv.
-  apply (variance_b64_history W (map (trunc_op B64Ops mult) ops) mult HW2 HW ltac:(lia)); [|exact Hfull].
-  apply since_reset_bounded; [exact Hops|constructor].
-Qed.
